@@ -215,11 +215,13 @@ func TestVF_C16_Keys(t *testing.T) {
 		jobs = append(jobs, job{130, 2, 1}, job{146, 2, 2}, job{258, 2, 1})
 	}
 	seedOff := int(rec.Seed())
+	defer runtime.GOMAXPROCS(runtime.GOMAXPROCS(0))
 	for ji, j := range jobs {
 		if !rec.Mine(ji) {
 			continue
 		}
 		p := params(j.ln)
+		runtime.GOMAXPROCS([]int{16, 4, 2, 1, 16, 8}[ji%6]) // the worker count of the safe-prime generator follows GOMAXPROCS
 		base := runtime.NumGoroutine()
 		type res struct {
 			sk  *gabikeys.PrivateKey
